@@ -79,6 +79,9 @@ def _common_checks(I, b, X, before_fields):
     if p is None:
         return {}
     rs = {c.get('denom'): c.get('amount') for c in p.get('assets').e}
+    I.check('pool_keeps_every_asset_in_order', [c.get('denom') for c in p.get('assets').e] == DEN)
+    if [c.get('denom') for c in p.get('assets').e] != DEN:
+        return {}
     for d in DEN:
         I.check('reserves_stay_backed_exactly', smt.Eq(b.get(PM, d) - rs[d], X[d]))
     fields, order = _pool_fields(I)
@@ -91,7 +94,7 @@ def _observe(I, b, who):
     for d in DEN:
         I.observe('bal:%s:%s' % (PM, d), b.get(PM, d))
         I.observe('bal:%s:%s' % (who, d), b.get(who, d))
-        I.observe('pool:p3:' + d, {c.get('denom'): c.get('amount') for c in get_pool(I, 'p3').get('assets').e}[d])
+        I.observe('pool:p3:' + d, {c.get('denom'): c.get('amount') for c in get_pool(I, 'p3').get('assets').e}.get(d))
     I.observe('bal:%s:%s' % (PM, LP3), b.get(PM, LP3))
     I.observe('bal:%s:%s' % (who, LP3), b.get(who, LP3))
     I.observe('supply:' + LP3, b.supply[LP3])
@@ -115,6 +118,8 @@ def _ob(op):
             I.cover('ok')
             _observe(I, b, 'lp1')
             rs = _common_checks(I, b, X, before)
+            if not rs:
+                return
             for d in DEN:
                 I.check('reserves_grow_by_exactly_the_deposits', smt.Eq(rs[d], res[d] + (dep[d] if d in ds else 0)))
             minted = simp(b.supply[LP3] - pre.supply[LP3])
@@ -139,6 +144,8 @@ def _ob(op):
             I.cover('ok')
             _observe(I, b, 'holder')
             rs = _common_checks(I, b, X, before)
+            if not rs:
+                return
             I.check('burns_exactly_the_shares_sent', smt.And(smt.Eq(pre.supply[LP3] - b.supply[LP3], lp), smt.Eq(pre.get('holder', LP3) - b.get('holder', LP3), lp),
                                                              smt.Eq(b.get(PM, LP3), pre.get(PM, LP3))))
             for d in DEN:
@@ -156,6 +163,8 @@ def _ob(op):
             I.cover('ok')
             _observe(I, b, 'trader')
             rs = _common_checks(I, b, X, before)
+            if not rs:
+                return
             (din, ain, ask, vals) = I.world.meta['uf_calls'][-1]
             ret, _slip, swf, prf, buf, exf = vals
             I.check('offer_reserve_credited_in_full', smt.Eq(rs['uA'], res['uA'] + o))
@@ -233,7 +242,7 @@ def _native(op, m, decs, c):
         def snap(rs):
             v = [int(r['ok']) if not isinstance(r.get('ok'), dict) else r['ok'] for r in rs]
             pool_assets = {a['denom']: int(a['amount']) for a in v[9]['pools'][0]['pool_info']['assets']}
-            return {'pm': v[0:3], 'who': v[3:6], 'pm_lp': v[6], 'who_lp': v[7], 'supply': v[8], 'res': [pool_assets[d] for d in DEN], 'info': v[9]['pools'][0]['pool_info']}
+            return {'pm': v[0:3], 'who': v[3:6], 'pm_lp': v[6], 'who_lp': v[7], 'supply': v[8], 'res': [pool_assets.get(d, -1) for d in DEN], 'info': v[9]['pools'][0]['pool_info']}
         a, z = snap(out[len(steps):len(steps) + n]), snap(out[-n:])
         bad = []
         for i, d in enumerate(DEN):
